@@ -11,10 +11,17 @@ warnings.filterwarnings("ignore")
 def main():
     parser = argparse.ArgumentParser()
     parser.add_argument("prop")
+    parser.add_argument("tier_or_spec", nargs="?")
     parser.add_argument("--tier", default=os.environ.get("VERIF_TIER", "quick"), choices=["quick", "thorough"])
     parser.add_argument("--replay")
     parser.add_argument("--workers", type=int, default=0)
     args = parser.parse_args()
+    if args.prop == "_digest-child":
+        from dst import selftest
+        return selftest.child_main(args.tier_or_spec)
+    if args.prop == "_resume-child":
+        from dst import crashsim
+        return crashsim.child_main(args.tier_or_spec)
     seed = int(os.environ.get("VERIF_SEED", "0"))
     import logging
     logging.disable(logging.CRITICAL)
@@ -29,6 +36,9 @@ def main():
         traceback.print_exc()
         print("HARNESS ERROR: build/import of /repo's working tree failed: %r" % (exc,), file=sys.stderr)
         return 2
+    if args.prop == "selftest":
+        from dst import selftest
+        return selftest.run(package_dir, seed, count=256 if args.tier == "thorough" else 64)
     prop_id = args.prop.upper()
     if args.replay:
         return driver.run_replay(prop_id, args.replay, package_dir)
